@@ -7,7 +7,7 @@
    See the end of the file for the containers. *)
 From Coq Require Import List String Bool ZArith.
 From Verif Require Import Codec.Schema Codec.Value Codec.Xml Codec.Wf Codec.Scan Codec.SpecNames
-     Codec.ProofsAttr Codec.ProofsKids Codec.ProofsRT Codec.ProofsMain Codec.ProofsTop C04.Refuted C04.SchemaOk C04.Roundtrip.
+     Codec.ProofsAttr Codec.ProofsKids Codec.ProofsRT Codec.ProofsMain Codec.ProofsTop Codec.ProofsScan C04.Refuted C04.SchemaOk C04.Roundtrip.
 From VerifGen Require Import GenSchema.
 Import ListNotations.
 Open Scope string_scope.
@@ -141,6 +141,25 @@ Example ex_node_struct_hyps :
   end = true.
 Proof. vm_compute. reflexivity. Qed.
 
+(* --- marshal_decodable_by_scanner for the containers: the scanner, run on the marshalled text,
+       yields the container's objects in document order (bounds, nodes, ways, relations,
+       changesets, notes, users of the document, resp. of the create, modify, delete blocks) —
+       by xml_roundtrip_OSM / xml_roundtrip_Change these are the objects of the value the
+       whole-document decoder returns --- *)
+Theorem marshal_decodable_by_scanner_OSM : forall v,
+  wfb gen_schema "OSM" v = true ->
+  exists e, encode1 gen_schema "OSM" v = Ok e
+            /\ scan_el gen_schema e = (osm_objects (d_of "OSM") v, None).
+Proof. exact scanner_reads_OSM. Qed.
+Print Assumptions marshal_decodable_by_scanner_OSM.
+
+Theorem marshal_decodable_by_scanner_Change : forall v,
+  wfb gen_schema "Change" v = true ->
+  exists e, encode1 gen_schema "Change" v = Ok e
+            /\ scan_el gen_schema e = (change_objects (d_of "Change") (d_of "OSM") v, None).
+Proof. exact scanner_reads_Change. Qed.
+Print Assumptions marshal_decodable_by_scanner_Change.
+
 (* STILL PARTIAL (stated, evaluated on every generated value by C04/Check.v, not proved):
-     marshal_decodable_by_scanner for the containers:
-       fst (scan_el gen_schema e) = collect gen_schema FUEL (TNamed T) v  for T in OSM, Change, Diff. *)
+     marshal_decodable_by_scanner_Diff: scan_el of the marshalled Diff = per action the created
+     element, the objects of old, the objects of new, then the changesets. *)
